@@ -749,4 +749,142 @@ theorem orig_maskValue_eq (m : MaskCfg) (value buf : Bytes) (idx : Matches)
   simp [he, r1, bind, Except.bind, hcf, sliceFrom_ok r2 r3, pure, Except.pure, maskedValue,
     allSections_of_asc hasc, this]
 
+
+/-! ### processMask (repaired) = the spec's leaf loop -/
+
+/-- what is assumed of the oracle for mask `i`: every answer is well shaped for an expression
+    that has all the selected groups -/
+def MaskOracleOk (re : Oracle) (i : Nat) (m : MaskCfg) : Prop :=
+  ∀ v idx, re i v = some idx → ∃ nsub, groupsOk m.groups nsub = true ∧ re2Shape nsub v.length 0 idx = true
+
+def LoopOk (re : Oracle) : Nat → List MaskCfg → Prop
+  | _, [] => True
+  | i, m :: ms => MaskOracleOk re i m ∧ LoopOk re (i + 1) ms
+
+/-- model loop state vs spec leaf state -/
+structure Rel (value : Bytes) (effs0 : List (Bytes × Bytes)) (counts0 : List Nat) (a0 : Bool)
+    (s : PM) (ls : LeafSt) : Prop where
+  cur : ls.cur = if s.copied then s.src else value
+  upd : s.updated = ls.changed
+  updc : s.updated = true → s.copied = true
+  effs : s.effs = effs0 ++ marks ls.applied
+  counts : s.counts = bumps counts0 ls.applied
+  app : s.applied = (a0 || !ls.applied.isEmpty)
+
+theorem marks_snoc (ap : List (Nat × MaskCfg)) (i : Nat) (m : MaskCfg) :
+    marks (ap ++ [(i, m)]) = marks ap ++ (if m.appliedField.isEmpty then [] else [(m.appliedField, m.appliedValue)]) := by
+  unfold marks
+  rw [List.filterMap_append]
+  congr 1
+  by_cases h : m.appliedField.isEmpty
+  · simp only [List.filterMap_cons, h, ↓reduceIte, List.filterMap_nil]
+  · simp only [List.filterMap_cons, h, Bool.false_eq_true, ↓reduceIte, List.filterMap_nil]
+
+theorem bumps_snoc (cs : List Nat) (ap : List (Nat × MaskCfg)) (i : Nat) (m : MaskCfg) :
+    bumps cs (ap ++ [(i, m)]) = if m.metric then bump (bumps cs ap) i else bumps cs ap := by
+  unfold bumps
+  rw [List.foldl_append]
+  rfl
+
+theorem maskStep_rel (c : Cfg) (re : Oracle) (value : Bytes) (fm : Option FMNode) (i : Nat) (m : MaskCfg)
+    (hok : MaskOracleOk re i m) {effs0 : List (Bytes × Bytes)} {counts0 : List Nat} {a0 : Bool}
+    {s : PM} {ls : LeafSt} (r : Rel value effs0 counts0 a0 s ls) :
+    match leafStep (eligible c fm) re value i m ls with
+    | none => maskStep fixedImpl c re value fm i m s = .error .oracleMiss
+    | some ls' => ∃ s', maskStep fixedImpl c re value fm i m s = .ok s' ∧ Rel value effs0 counts0 a0 s' ls' := by
+  unfold leafStep maskStep
+  by_cases h1 : eligible c fm i m
+  · by_cases h2 : (m.use && checkMatchRules m value)
+    · simp only [h1, h2, Bool.not_true, Bool.false_eq_true, ↓reduceIte]
+      by_cases h3 : (m.hasRe && !m.groups.isEmpty)
+      · simp only [h3, ↓reduceIte]
+        have hsrc : (if fixedImpl.needCopy s.src s.copied = true then value else s.src) = ls.cur := by
+          rw [r.cur]; simp only [fixedImpl]; cases s.copied <;> simp
+        rw [hsrc]
+        cases hre : re i ls.cur with
+        | none => simp
+        | some idx =>
+          obtain ⟨nsub, hg, hs⟩ := hok ls.cur idx hre
+          have hmv := maskValue_eq m ls.cur s.maskBuf nsub idx hg hs
+          have hmv' : fixedImpl.maskValue m idx ls.cur s.maskBuf =
+              .ok (if idx.isEmpty then (s.maskBuf, false) else (maskedValue m idx ls.cur, true)) := hmv
+          by_cases he : idx.isEmpty
+          · simp only [hmv', he, ↓reduceIte, liftGo, bind, Except.bind, Bool.not_false, pure, Except.pure]
+            refine ⟨_, rfl, ?_⟩
+            exact { cur := by simp, upd := r.upd, updc := fun _ => rfl, effs := r.effs, counts := r.counts, app := r.app }
+          · simp only [hmv', he, Bool.false_eq_true, ↓reduceIte, liftGo, bind, Except.bind, Bool.not_true, pure, Except.pure]
+            refine ⟨_, rfl, ?_⟩
+            exact { cur := by simp, upd := rfl, updc := fun _ => rfl,
+                    effs := by
+                      simp only [marks_snoc, r.effs]
+                      by_cases hf : m.appliedField.isEmpty <;> simp [hf],
+                    counts := by simp only [bumps_snoc, r.counts],
+                    app := by simp }
+      · simp only [h3, Bool.false_eq_true, ↓reduceIte, pure, Except.pure]
+        refine ⟨_, rfl, ?_⟩
+        exact { cur := r.cur, upd := r.upd, updc := r.updc,
+                effs := by
+                  simp only [marks_snoc, r.effs]
+                  by_cases hf : m.appliedField.isEmpty <;> simp [hf],
+                counts := by simp only [bumps_snoc, r.counts],
+                app := by simp }
+    · simp only [h1, h2, Bool.not_true, Bool.not_false, Bool.false_eq_true, ↓reduceIte, pure, Except.pure]
+      exact ⟨s, rfl, r⟩
+  · simp only [h1, Bool.not_false, ↓reduceIte, pure, Except.pure]
+    exact ⟨s, rfl, r⟩
+
+theorem maskLoop_rel (c : Cfg) (re : Oracle) (value : Bytes) (fm : Option FMNode)
+    {effs0 : List (Bytes × Bytes)} {counts0 : List Nat} {a0 : Bool} :
+    ∀ (ms : List MaskCfg) (i : Nat) (s : PM) (ls : LeafSt), LoopOk re i ms → Rel value effs0 counts0 a0 s ls →
+    match leafLoop (eligible c fm) re value i ms ls with
+    | none => maskLoop fixedImpl c re value fm i ms s = .error .oracleMiss
+    | some ls' => ∃ s', maskLoop fixedImpl c re value fm i ms s = .ok s' ∧ Rel value effs0 counts0 a0 s' ls'
+  | [], _, s, ls, _, r => ⟨s, rfl, r⟩
+  | m :: ms, i, s, ls, ⟨hok, hrest⟩, r => by
+    have hstep := maskStep_rel c re value fm i m hok r
+    unfold leafLoop maskLoop
+    cases hl : leafStep (eligible c fm) re value i m ls with
+    | none =>
+      rw [hl] at hstep
+      simp [hstep, bind, Except.bind]
+    | some ls1 =>
+      rw [hl] at hstep
+      obtain ⟨s1, e1, r1⟩ := hstep
+      have ih := maskLoop_rel c re value fm ms (i + 1) s1 ls1 hrest r1
+      simp only [e1, bind, Except.bind]
+      exact ih
+
+/-- **processMask (repaired) is the spec's leaf loop** for the masks the field-masks node leaves:
+    same new value, same marks, same counters, fails only where the oracle table has no row -/
+theorem processMask_eq (c : Cfg) (re : Oracle) (value : Bytes) (fm : Option FMNode) (st : St)
+    (hok : LoopOk re 0 c.masks) :
+    processMask fixedImpl c re value fm st =
+      match specLeaf (eligible c fm) c.masks re value with
+      | none => .error .oracleMiss
+      | some (nv, ap) => .ok (nv, { effs := st.effs ++ marks ap, counts := bumps st.counts ap,
+                                    applied := st.applied || !ap.isEmpty }) := by
+  unfold processMask specLeaf
+  by_cases hv : value.isEmpty
+  · simp [hv, pure, Except.pure, marks, bumps]
+  · simp only [hv, Bool.false_eq_true, ↓reduceIte]
+    have r0 : Rel value st.effs st.counts false { effs := st.effs, counts := st.counts } { cur := value } :=
+      { cur := by simp, upd := rfl, updc := fun h => by simp at h, effs := by simp [marks],
+        counts := by simp [bumps], app := by simp }
+    have h := maskLoop_rel c re value fm c.masks 0 _ _ hok r0
+    cases hl : leafLoop (eligible c fm) re value 0 c.masks { cur := value } with
+    | none =>
+      rw [hl] at h
+      simp [h, bind, Except.bind]
+    | some ls' =>
+      rw [hl] at h
+      obtain ⟨s', e1, r1⟩ := h
+      simp only [e1, bind, Except.bind, pure, Except.pure]
+      congr 2
+      · rw [r1.upd]
+        cases hc : ls'.changed
+        · simp
+        · have := r1.updc (by rw [r1.upd, hc])
+          simp [r1.cur, this]
+      · simp [r1.effs, r1.counts, r1.app]
+
 end FileD.MaskLemmas
